@@ -74,7 +74,7 @@ func FromG(g gmars.Instruction) (ref.Instr, bool) {
 			r.BM = k
 		}
 	}
-	ok := r.Op >= 0 && r.Mod >= 0 && r.AM >= 0 && r.BM >= 0 && g.A <= 1<<62 && g.B <= 1<<62
+	ok := r.Op >= 0 && r.Mod >= 0 && r.AM >= 0 && r.BM >= 0 && uint64(g.A) <= 1<<62 && uint64(g.B) <= 1<<62
 	return r, ok
 }
 
